@@ -20,6 +20,10 @@ def cases(tier, seed):
                 for s in sk:
                     out.append({"op": op, "dtype": dt, "N": N, "G": G, "mask": {"kind": mk}, "skip_na": s,
                                 "witness": dt == "float64" and s})
+    for op in ("cumsum", "cummax"):
+        for comp in ([1, N - 1], [N // 2, N - N // 2], [N - 1, 1]) + (() if tier == "quick" else ([1, 1, N - 2],)):
+            for dt in ("float64", "int64"):
+                out.append({"op": op, "dtype": dt, "N": N, "G": G, "mask": {"kind": "bool_sym"}, "skip_na": True, "chunks": list(comp)})
     if tier == "thorough":
         for op in ("cumsum", "cummax", "cumcount"):
             out.append({"op": op, "dtype": "float64" if op != "cumcount" else "int64", "N": 8, "G": 3, "mask": {"kind": "none"}, "skip_na": True})
